@@ -7,6 +7,8 @@
 From AV Require Import Router.ResourceProofs.
 From AV Require Import Lib.Base Gen.Consts Router.Pattern Router.Match Router.Path Router.ResourceDef
   Router.Quoter Router.Spec Router.RouteTree Router.RouteSpec Router.RouteProofs.
+From Coq Require Import String.
+From AV Require Import Gen.RoutingTables Router.RouteTie.
 
 Definition MAX := ROUTER_MAX_DYNAMIC_SEGMENTS.
 
@@ -190,6 +192,98 @@ Example C09_example_default_then_configure :
            [Resource (Single (mkPattern [SConst [47; 120]] false)) [] [([], 1)] None None] (Some 5) (Some [])]
         None [].
 Proof. reflexivity. Qed.
+
+(* ------------------------------------------------------------- tie to the Rust source text *)
+(* The statements of the routing code, re-read from the sources on every run by
+   tools/gen/routing.py (Gen/RoutingTables.v), interpreted statement by statement
+   (Router/RouteTie.v), are the model. *)
+
+(* (a) Router::recognize_fn: services in registration order, guard check inside the capture call,
+   first hit returns; AppRouting / ScopeService: hit -> push id, mark, call; miss -> default *)
+Theorem C09_routing_matches_source_recognize :
+  (exists d, read_recognize = Some (SReturnSomeVal, SReturnNone, d)) /\
+  (forall d, read_recognize = Some (SReturnSomeVal, SReturnNone, d) ->
+     forall M rq A (enter : nat -> node -> path -> R A) miss cs pth,
+       recognize_gen M rq enter miss d cs pth = recognize M rq enter miss 0 cs pth) /\
+  routing_call_ok APP_ROUTING_CALL = true /\ routing_call_ok SCOPE_SERVICE_CALL = true.
+Proof. split; [exact tie_recognize_read|]. split; [exact tie_recognize|exact tie_routing_calls]. Qed.
+
+(* … capture_match_info_fn: the check runs after the staging match and BEFORE `path.add` / `path.skip`;
+   a rejected candidate returns the Path as it was *)
+Theorem C09_routing_matches_source_capture :
+  (forall check ml vars p,
+     run_capture CAPTURE_FN check ml vars p =
+     (if negb check then Val (false, p)
+      else rbind (add_all p vars) (fun p' => rbind (path_skip p' (u16_mod ml)) (fun p'' => Val (true, p''))))) /\
+  (forall M rd p, exists stage, forall check,
+     capture_match_info_fn M rd p check =
+     rbind stage (fun st => match st with
+                            | None => Val (false, p)
+                            | Some (ml, vars) => run_capture CAPTURE_FN check ml vars p
+                            end)).
+Proof. split; [exact tie_capture_tail|exact tie_capture_fn]. Qed.
+
+(* (b) defaults: configure keeps an earlier default unless the closure sets one (seed C09-2),
+   default_service overwrites, ServiceConfig::configure = f(self); Scope::register: own default =
+   default_service or the configuration's, children registered with the configuration's (F26) *)
+Theorem C09_routing_matches_source_defaults :
+  (forall calls s,
+     let c := apply_calls true calls (mkB [] (Some []) None) in
+     interp_configure SCOPE_CONFIGURE c s = apply_call false (BConfigure calls) s /\
+     interp_configure APP_CONFIGURE c s = apply_call false (BConfigure calls) s /\
+     configure_fresh SCOPE_CONFIGURE = true /\ configure_fresh APP_CONFIGURE = true) /\
+  (CFG_CONFIGURE = [(SRunClosureOnSelf, []); (SReturnSelf, [])] /\
+   forall calls s, apply_call true (BConfigure calls) s = apply_calls true calls s) /\
+  (forall in_cfg id s,
+     fold_left (exec_default id) SCOPE_DEFAULT_SERVICE s = apply_call in_cfg (BDefault id) s /\
+     fold_left (exec_default id) APP_DEFAULT_SERVICE s = apply_call in_cfg (BDefault id) s /\
+     fold_left (exec_default id) CFG_DEFAULT_SERVICE s = apply_call in_cfg (BDefault id) s) /\
+  (forall dflt cfg, interp_register dflt cfg = (Some (default_handler dflt cfg), Some cfg)) /\
+  (forall rq cfg pfx gs kids dflt dat pth st ids,
+     Val (enter_node MAX rq cfg (Scope pfx gs kids dflt dat) pth st ids) =
+     match interp_register dflt cfg with
+     | (Some own, Some cfg') =>
+         Val (recognize MAX rq (fun i k p => enter_node MAX rq cfg' k p (push dat st) (ids ++ [i]))
+                (fun p => Val (mkOut own ids false p (push dat st))) 0%nat kids pth)
+     | _ => Panic
+     end).
+Proof.
+  split; [exact tie_configure|]. split; [exact tie_cfg_configure|]. split; [exact tie_default_service|].
+  split; [exact tie_register|]. intros. apply tie_enter_scope.
+Qed.
+
+(* (c) ResourceService::call: first route (registration order) whose check passes, else the default;
+   RouteService::check: every guard *)
+Theorem C09_routing_matches_source_resource :
+  (exists d, read_resource_call = Some (SReturnRouteCall, SCallDefault, d)) /\
+  (forall d, read_resource_call = Some (SReturnRouteCall, SCallDefault, d) ->
+     forall rq routes dflt, select_gen d rq routes dflt = select_route rq routes dflt) /\
+  (exists d, read_route_check = Some (SReturnFalse, SReturnTrue, d)) /\
+  (forall d, read_route_check = Some (SReturnFalse, SReturnTrue, d) ->
+     forall rq gs, check_gen d rq gs = guards_ok rq gs).
+Proof.
+  split; [exact tie_resource_call_read|]. split; [exact tie_resource_call|].
+  split; [exact tie_route_check_read|exact tie_route_check].
+Qed.
+
+(* (d) the data container is pushed (at the back) before the inner service is called; the lookup
+   walks the containers from the back *)
+Theorem C09_routing_matches_source_app_data :
+  (forall dat st,
+     interp_wrap SCOPE_WRAP "scope_data"%string dat st = Some (push dat st) /\
+     interp_wrap RESOURCE_WRAP "resource_data"%string dat st = Some (push dat st)) /\
+  (exists d, read_app_data = Some (SReturnSomeData, SReturnNone, d)) /\
+  (forall d, read_app_data = Some (SReturnSomeData, SReturnNone, d) ->
+     forall k st, lookup_gen d k st = stack_get k st).
+Proof. split; [exact tie_wrap|]. split; [exact tie_app_data_read|exact tie_app_data]. Qed.
+
+(* (e) Url::new requotes `uri.path()` with the quoter whose protected set is the source's literal;
+   Url::path falls back to the raw path when nothing was decoded *)
+Theorem C09_routing_matches_source_url : forall raw,
+  URL_NEW = [(SPathRequoteLossyOfUriPath, []); (SUrlStruct, [])] /\
+  URL_PATH = [(SPathOrUriPath, [])] /\
+  url_path raw = rbind (quoter_new URL_PROTECTED) (fun q => Val (requote_full q raw)).
+Proof. exact tie_url. Qed.
 
 (* ------------------------------------------------------------------------------ non-vacuity *)
 (* Overlapping patterns, rejecting guard first: two resources "/u/{id}" in scope "/api"; the
